@@ -7,7 +7,7 @@ silently become something else.  The model functions were written against exactl
 import WowSrp.Gen.Facts
 namespace WowSrp
 
-def expected_shapeServer : List (List String) := [["username: calls=as_ref; control=; ops=", "password_verifier: calls=as_le_bytes; control=; ops=", "salt: calls=as_le_bytes; control=; ops=", "from_username_and_password: calls=Salt::randomized,Self::with_specific_salt; control=; ops=", "from_database_values: calls=Verifier::from_le_bytes,Salt::from_le_bytes; control=; ops=", "with_specific_salt: calls=srp_internal::calculate_password_verifier,Self::from_database_values,as_le_bytes; control=; ops=", "with_specific_private_key: calls=srp_internal::calculate_server_public_key; control=?; ops=", "server_public_key: calls=as_le_bytes; control=; ops=", "salt: calls=as_le_bytes; control=; ops=", "into_server: calls=srp_internal::calculate_session_key,srp_internal::calculate_client_proof,Proof::from_le_bytes,as_le_bytes,as_le_bytes,srp_internal::calculate_server_proof,ReconnectData::randomized,as_le_bytes; control=if,return; ops=!=", "session_key: calls=as_le_bytes; control=; ops=", "reconnect_challenge_data: calls=as_le_bytes; control=; ops=", "verify_reconnection_attempt: calls=calculate_reconnect_proof,ReconnectData::from_le_bytes,Proof::from_le_bytes,randomize_data; control=; ops==="]]
+def expected_shapeServer : List (List String) := [["username: calls=as_ref; control=; ops=", "password_verifier: calls=as_le_bytes; control=; ops=", "salt: calls=as_le_bytes; control=; ops=", "from_username_and_password: calls=Salt::randomized,Self::with_specific_salt; control=; ops=", "from_database_values: calls=Verifier::from_le_bytes,Salt::from_le_bytes; control=; ops=", "into_proof: calls=PrivateKey::randomized,Self::with_specific_private_key,expect; control=; ops=", "with_specific_salt: calls=srp_internal::calculate_password_verifier,Self::from_database_values,as_le_bytes; control=; ops=", "with_specific_private_key: calls=srp_internal::calculate_server_public_key; control=?; ops=", "server_public_key: calls=as_le_bytes; control=; ops=", "salt: calls=as_le_bytes; control=; ops=", "into_server: calls=srp_internal::calculate_session_key,srp_internal::calculate_client_proof,Proof::from_le_bytes,as_le_bytes,as_le_bytes,srp_internal::calculate_server_proof,ReconnectData::randomized,as_le_bytes; control=if,return; ops=!=", "session_key: calls=as_le_bytes; control=; ops=", "reconnect_challenge_data: calls=as_le_bytes; control=; ops=", "verify_reconnection_attempt: calls=calculate_reconnect_proof,ReconnectData::from_le_bytes,Proof::from_le_bytes,randomize_data; control=; ops==="]]
 
 theorem shapeServer_ok : Gen.shapeServer = expected_shapeServer := by decide +kernel
 
